@@ -254,13 +254,14 @@ namespace AIToolbox::Factored::MDP {
     }
 
     void Global::makeResult(VE::FinalFactors && finalFactors) {
-        // Finally, add the last inequalities for all remaining factors.
+        // Finally, add the last inequality: the sum of all remaining factors
+        // (one per independent component of the graph) must be <= 0, since
+        // the max over the joint space is the sum of the components' maxima.
         lp.row.setZero();
 
-        for (const auto ruleId : finalFactors) {
+        for (const auto ruleId : finalFactors)
             lp.row[ruleId] = 1.0;
-            lp.pushRow(LP::Constraint::LessEqual, 0.0);
-            lp.row[ruleId] = 0.0;
-        }
+
+        lp.pushRow(LP::Constraint::LessEqual, 0.0);
     }
 }
